@@ -75,23 +75,15 @@ func c18(w *core.World, r *core.Report) {
 
 	r.Rule("R18.5", "a unit is emitted only on the builder's success edge", 1)
 	if f := fn(w, r, "(*syncer.RedisOutput).parseAofReplayUnits"); f != nil {
-		var emit *ssa.Function
-		for _, c := range core.DeepFuncs(f)[1:] {
-			for _, in := range core.OwnInstrs(c) {
-				if sel, ok := in.(*ssa.Select); ok {
-					for _, st := range sel.States {
-						if st.Send != nil && strings.HasSuffix(st.Send.Type().String(), "bisyncReplayUnit") {
-							emit = c
-						}
-					}
-				}
-			}
-		}
+		// the function that emits: a closure of the parser, or a function of the package the parser calls, that sends
+		// a unit on a channel (unitEmitters, r7_n3.go: with the position of the unit among its arguments)
+		emitters := unitEmitters(f)
 		n := 0
 		// the emit closure is called from the parser itself, or from a closure that builds and emits
 		for _, g := range core.DeepFuncs(f) {
 			for _, s := range core.Sites(g, false) {
-				if emit == nil || s.Callee != emit || s.Instr.Parent() != g {
+				unitArg, isEmit := emitters[s.Callee]
+				if s.Callee == nil || !isEmit || s.Instr.Parent() != g || unitArg >= len(s.Common().Args) {
 					continue
 				}
 				n++
@@ -104,7 +96,7 @@ func c18(w *core.World, r *core.Report) {
 					}
 				}
 				for _, bs := range builds {
-					if core.Dominates(bs.Instr, s.Instr) && core.OnSuccessOf(s.Instr.Block(), bs.Value()) && core.Unwrap(s.Args()[0]) == extractOf(bs.Value(), 0) {
+					if core.Dominates(bs.Instr, s.Instr) && core.OnSuccessOf(s.Instr.Block(), bs.Value()) && core.Unwrap(s.Common().Args[unitArg]) == extractOf(bs.Value(), 0) {
 						okB = true
 					}
 				}
